@@ -11,6 +11,7 @@ ALGS = {
     "C07": ["parafac", "nn_parafac_hals", "tucker", "parafac2", "tr_als", "cmtf"],
     "C08": None,
     "C10": ["nn_parafac", "nn_parafac_hals", "nn_tucker", "nn_tucker_hals", "constrained_parafac", "parafac2"],
+    "C14": None,
 }
 
 
@@ -34,6 +35,8 @@ def design_runs(chk, prop):
 
 
 def configs_for(chk, prop):
+    if prop == "C14":
+        return L.warm_configs(chk.tier, chk.seed)
     cfgs = L.driver_configs(chk.tier, chk.seed, algs=ALGS.get(prop))
     if prop == "C10":
         cfgs = [c for c in cfgs if c["alg"] != "parafac2" or c.get("nn_modes") is not None] + L.nonneg_extra_configs(chk.tier, chk.seed)
